@@ -99,10 +99,20 @@ def join(a: State | None, b: State | None) -> State | None:
     return s
 
 
+RPART_CAP = 6
+
+
+def guard_key(st):
+    """the guard context of a state: its unit facts about file-system probes.  Raises from
+    different guard contexts reach a handler as separate states, so that what a handler
+    does can be judged per context (e.g. roll-back after a rejected vs. a new binding)."""
+    return frozenset((f, p) for f, p in st.facts if f[0] == "probe")
+
+
 class Out:
     """Outcome of executing a statement list."""
 
-    __slots__ = ("normal", "ret", "retval", "raises", "brk", "cont", "parts", "forks")
+    __slots__ = ("normal", "ret", "retval", "raises", "brk", "cont", "parts", "forks", "rparts")
 
     def __init__(self, normal=None):
         self.normal = normal
@@ -113,9 +123,24 @@ class Out:
         self.cont = None
         self.parts = {}     # "none" / "some" -> (state, values): returns partitioned by None-ness
         self.forks = None   # list of states when the statement forks (see Interp.st_Assign)
+        self.rparts = {}    # label -> {guard-context key -> state}: raises kept apart per guard context
 
-    def add_raise(self, label, st):
+    def add_raise(self, label, st, key=None):
+        if st is None:
+            return
         self.raises[label] = join(self.raises.get(label), st)
+        if key is None:
+            key = guard_key(st)
+        d = self.rparts.setdefault(label, {})
+        if key not in d and len(d) >= RPART_CAP:
+            key = "overflow"
+        d[key] = join(d.get(key), st)
+
+    def raise_states(self, label):
+        d = self.rparts.get(label)
+        if not d:
+            return [self.raises[label]]
+        return [d[k] for k in sorted(d, key=repr)]
 
     def add_return(self, st, val):
         if st is None:
@@ -131,8 +156,13 @@ class Out:
 
     def absorb(self, other: "Out"):
         """merge the non-normal outcomes of `other`"""
-        for l, s in other.raises.items():
-            self.add_raise(l, s)
+        for l in other.raises:
+            d = other.rparts.get(l)
+            if d:
+                for k, s in d.items():
+                    self.add_raise(l, s, k)
+            else:
+                self.add_raise(l, other.raises[l])
         for pst, pval in other.ret_parts():
             self.add_return(pst, pval)
         self.brk = join(self.brk, other.brk)
